@@ -1042,9 +1042,11 @@ theorem tie_union_fresh :
   refine ⟨rfl, rfl, rfl⟩
 
 /-- the decoder loop reads the value right behind the has-value test, before the position tests, and
-there is exactly one `decoder.Value()` in the function (seeded c03-14 moves it into the branches) -/
+there is exactly one `decoder.Value()` in the function (seeded c03-14 moves it into the branches); the
+conversion statement of `fixes/C03-slot-loop-uint16-wrap.patch` (loop over `int`) is accepted in front -/
 theorem tie_decoder_loop :
-    Generated.C03.decoderLoopStmts = ["if !decoder.HasValueWithSlot(movingSourceSlot)",
+    Generated.C03.decoderLoopStmts.filter (fun s => s != "movingSourceSlot := uint16(slot)") =
+     ["if !decoder.HasValueWithSlot(movingSourceSlot)",
       "value := math.Float64frombits(decoder.Value())",
       "targetPos := bs + int(movingSourceSlot/ratio) - int(target.Start)",
       "if targetPos < 0", "if targetPos >= length", "if math.IsInf(targetValues[targetPos], 1)"] ∧
